@@ -738,6 +738,9 @@ class StmtMixin:
             if a in path.env and not isinstance(path.env[a], (MaybeUnbound,)) and path.env[a] is not UNBOUND:
                 cur = path.env[a]
                 hint_ = (ctx.cur_contract.kinds or {}).get(a) if ctx.cur_contract is not None else None
+                if hint_ and hint_.startswith(('set[', 'Set[')) and isinstance(cur, VSet):
+                    cur = self.coerce(cur, self.ann_kind(ast.parse(hint_, mode='eval').body, None))
+                    path.env[a] = cur
                 if hint_ and hint_.startswith('Stack[') and isinstance(cur, (VList, VTuple)):
                     cur = self.coerce(cur, self.ann_kind(ast.parse(hint_, mode='eval').body, None))
                     path.env[a] = cur
